@@ -113,7 +113,7 @@ class C15(Prop):
     pid = "C15"
     prop_file = "Props/C15.v"
     module = "Props.C15"
-    gen_deps = ["Roff", "Palette", "Style", "RoffFn", "CansiFn"]
+    gen_deps = ["Roff", "Palette", "Style", "RoffFn", "RoffCrateFn", "CansiFn"]
     harness = ("h-roff", "hroff")
     nontrivial_rule = ("cases: ONE segment, every pair of foreground/background in {unset, 0..15} (17 x 17) x every subset of the 8 effects (codes 1 2 3 4 5 7 8 9) "
                        "-- exhaustive, the segment text cycling through 16 texts with leading '.', ''', '\\', '-', newlines; seeded random texts of 1-5 segments "
